@@ -390,7 +390,12 @@ fn calculate_length(bufs: &mut CurveBuffers, expected_len: Option<f64>, optimize
         // * The direction of the segment to shorten or lengthen
         let dir = (path[end_idx] - path[prev_idx]).normalize();
 
-        path[end_idx] = path[prev_idx] + dir * (expected_len - cumulative_len[prev_idx]) as f32;
+        // The segment has no extent if both points are equal in which case
+        // there is no direction to move the end point towards.
+        if dir.x.is_finite() && dir.y.is_finite() {
+            path[end_idx] = path[prev_idx] + dir * (expected_len - cumulative_len[prev_idx]) as f32;
+        }
+
         cumulative_len.push(expected_len);
     }
 }
